@@ -56,6 +56,10 @@ import (
 //                 The Casketfile goes through the real front end (parser, InspectServerBlocks, every directive's setup
 //                 function; parsing callbacks skipped), then the pure stages of activateHTTPS in its order with
 //                 enableAutoHTTPS(…, false), then the real MakeServers.  Nothing contacts a CA.
+//   c15.inspect   addr,addr,…                 -> ok <key>|<site string>;…   or   error:<class>
+//                 every address as the key of its own (empty) server block, through the real loader and the real
+//                 InspectServerBlocks: the duplicate bookkeeping ("duplicate site key", "duplicate site address");
+//                 key = Address.Key() of the stored address, site string = Address.String() with the default port filled in.
 //   c15.activate  blocks                      -> same answer format as c15.sites
 //                 The same Casketfile front end, but then the REAL activateHTTPS, reached through the real parsing-callback
 //                 registry (the callbacks registered for "tls"), followed by the real MakeServers.  So that nothing can reach
@@ -482,6 +486,42 @@ func c15SitesEval(f []string) (string, []string) {
 	return strings.Join(out, ";"), tags
 }
 
+// ---- c15.inspect ----
+
+func c15InspectEval(f []string) (string, []string) {
+	if len(f) != 1 {
+		return "bad-case", nil
+	}
+	var b strings.Builder
+	ks := strings.Split(f[0], ",")
+	for _, k := range ks {
+		a := c15UnQ(k)
+		if !c15InAddrDomain(a) || a == "" {
+			return "out-of-model", []string{"trivial-out-of-model"}
+		}
+		b.WriteString(a + " {\n}\n")
+	}
+	inst, ctx, err := casket.VerifC15Load(casket.CasketfileInput{Filepath: "Testfile", Contents: []byte(b.String()), ServerTypeName: "http"})
+	defer inst.ShutdownCallbacks()
+	if err != nil {
+		c := c15ErrClass(err)
+		tags := []string{c, fmt.Sprintf("n=%d", len(ks))}
+		if c != "error:dupkey" && c != "error:dupaddr" {
+			tags = append(tags, "trivial-not-a-duplicate-error")
+		}
+		return c, tags
+	}
+	var out []string
+	for _, c := range httpserver.VerifC15Configs(ctx) {
+		filled := c.Addr
+		if filled.Port == "" {
+			filled.Port = httpserver.Port
+		}
+		out = append(out, c15Q(c.Addr.Key())+"|"+c15Q(filled.String()))
+	}
+	return "ok " + strings.Join(out, ";"), []string{"accepted", fmt.Sprintf("n=%d", len(ks))}
+}
+
 // ---- c15.activate ----
 
 // c15NoIssuer is installed as the only issuer of every certmagic config: it never talks to anybody.
@@ -709,6 +749,7 @@ func init() {
 	hx.Register(&hx.Stream{ID: "C15", Name: "c15.qualify", Gen: c15QualifyGen, Eval: c15QualifyEval})
 	hx.Register(&hx.Stream{ID: "C15", Name: "c15.addr", Gen: c15AddrGen, Eval: c15AddrEval})
 	hx.Register(&hx.Stream{ID: "C15", Name: "c15.sites", Gen: c15SitesGen, Eval: c15SitesEval, Setup: c15Setup, Teardown: c15Teardown})
+	hx.Register(&hx.Stream{ID: "C15", Name: "c15.inspect", Gen: c15InspectGen, Eval: c15InspectEval, Setup: c15Setup, Teardown: c15Teardown})
 	hx.Register(&hx.Stream{ID: "C15", Name: "c15.activate", Gen: c15ActivateGen, Eval: c15ActivateEval, Setup: c15ActivateSetup, Teardown: c15ActivateTeardown})
 	hx.Register(&hx.Stream{ID: "C15", Name: "c15.redirect", Gen: c15RedirectGen, Eval: c15RedirectEval, Setup: c15Setup, Teardown: c15Teardown})
 }
